@@ -6,7 +6,8 @@ get_dynamics, for Tempo (full memory and across the dkmax boundary),
 MeanFieldTempo and PtTebd, against the single call to the furthest target;
 idempotence of PtTempo.compute/get_process_tensor and GibbsTempo; PT-TEBD
 restart from get_augmented_mps() + start_step at every k (with chain controls
-before and after the restart point).
+before and after the restart point). Long grids (25..120 steps) with final
+targets on or a hair off a grid point, reached through an intermediate call.
 
 Fault enumeration: a clean run counts the calls c of every user callable
 (H(t), gamma(t), A(t), H(t,a), field equation, correlation function); for
@@ -55,7 +56,8 @@ def required_cells(tier):
             "idempotence:pttempo": 1, "idempotence:gibbs": 1,
             "fault:tempo_td": 1, "fault:tempo_corr": 1, "fault:pttempo_corr": 1,
             "fault:meanfield": 1, "faults_injected": 60,
-            "decreasing-target": 3, "repeated-target": 3}
+            "decreasing-target": 3, "repeated-target": 3,
+            "edge:tempo": 2, "edge:meanfield": 1, "edge_hair_targets": 40}
 
 
 def all_sequences(maxlen):
@@ -79,6 +81,8 @@ def cases(tier, seed):
         out.append({"kind": "restart", "seed": seed, "idx": i, "tier": tier})
     for i in range(2 if tier == "quick" else 8):
         out.append({"kind": "idem", "seed": seed, "idx": i, "tier": tier})
+    for i in range(6 if tier == "quick" else 36):
+        out.append({"kind": "edge", "seed": seed, "idx": i, "tier": tier})
     nf = 2 if tier == "quick" else 8
     for fc in ("tempo_td", "tempo_corr", "pttempo_corr", "meanfield"):
         for i in range(nf):
@@ -592,6 +596,92 @@ def run_fault(case):
                        "raised_again": raised_again}}
 
 
+def run_edge(case):
+    """Targets on, or a hair off, grid points of a long grid (40..120
+    steps), reached in one call or through intermediate calls at literal grid
+    times: the number of recorded points and the states must not depend on
+    how many calls were used (the rounding rule that decides whether an end
+    time lies on the grid must refer to the start of the computation, not to
+    where the previous call stopped)."""
+    import oqupy
+    i = case["idx"]
+    rng = gen.rng_for(case["seed"], "c14edge", i)
+    mean_field = bool(i % 3 == 2)
+    n = [40, 60, 120, 25][i % 4]
+    dt = [0.1, 0.05, 0.013, 0.2][(i // 2) % 4]
+    start = [0.0, 0.3, -1.7, 12.5][(i // 3) % 4]
+    p = dict(alpha=0.1, zeta=1.0, cutoff=3.0, cutoff_type="exponential",
+             temperature=0.4)
+    params = lib.tempo_params(dt, 1e-8, 2, None, None)
+    o = np.diag([0.5, -0.5]).astype(complex)
+    h = gen.rand_herm(rng, 2, 0.8)
+    rho0 = gen.rand_state(rng, 2)
+    mf = lib.MeanFieldModel(rng, [2]) if mean_field else None
+
+    def make():
+        if mean_field:
+            mfs, _ = mf.build()
+            return oqupy.MeanFieldTempo(
+                mfs, [oqupy.Bath(o, gen.make_power_law(p))], params, [rho0],
+                0.2 + 0.1j, start)
+        return oqupy.Tempo(oqupy.System(h), oqupy.Bath(
+            o, gen.make_power_law(p)), params, rho0, start)
+
+    def snap(obj):
+        dyn = obj.get_dynamics()
+        if mean_field:
+            return np.array(dyn.times), np.concatenate(
+                [np.array(dyn.system_dynamics[0].states).reshape(
+                    len(dyn.times), -1),
+                 np.array(dyn.fields).reshape(-1, 1)], axis=1)
+        return np.array(dyn.times), np.array(dyn.states).reshape(
+            len(dyn.times), -1)
+
+    # final targets: fractional step counts relative to the grid point n
+    offs = [0.0, -0.3e-9 * n, -0.7e-9 * n, +0.4e-9 * n, -0.3, +0.3]
+    violations, monitors = [], {"edge_histories": 0, "edge_hair_targets": 0}
+    worst = 0.0
+    for off in offs:
+        target = start + (n + off) * dt
+        ref = make()
+        ref.compute(target, progress_type="silent")
+        rsnap = snap(ref)
+        for frac in (0.1, 0.5, 0.75, 0.95):
+            k = max(1, min(n - 1, int(round(frac * n))))
+            obj = make()
+            # the intermediate target as a user would write it
+            obj.compute(float(repr(round(start + k * dt, 10))),
+                        progress_type="silent")
+            obj.compute(target, progress_type="silent")
+            eq, dev = same(snap(obj), rsnap)
+            monitors["edge_histories"] += 1
+            if off != 0.0 and abs(off) < 1e-3:
+                monitors["edge_hair_targets"] += 1
+            if dev != float("inf"):
+                worst = max(worst, dev)
+            if not eq:
+                fin = snap(obj)
+                violations.append({
+                    "what": f"{'MeanFieldTempo' if mean_field else 'Tempo'}"
+                            f" (start={start}, dt={dt}): compute to step "
+                            f"{k} then to start+({n}{off:+.3g})*dt leaves "
+                            f"{len(fin[0])} time points (last "
+                            f"{fin[0][-1]!r}), a single call "
+                            f"{len(rsnap[0])} (last {rsnap[0][-1]!r}); "
+                            f"deviation {dev:.3e}",
+                    "mechanism": "history-differs",
+                    "detail": {"n": n, "off": off, "k": k}})
+                break
+        if len(violations) >= 3:
+            break
+    return {"violations": violations, "cells": [
+        "edge:" + ("meanfield" if mean_field else "tempo")],
+            "monitors": monitors, "nontrivial": True,
+            "signature": f"edge-{i}", "maxratio": worst / TOL,
+            "obs": {}, "sample": {"kind": "edge", "n": n, "dt": dt,
+                                  "start": start, "offsets_in_steps": offs}}
+
+
 def run_case(case):
     return {"hist": run_hist, "restart": run_restart, "idem": run_idem,
-            "fault": run_fault}[case["kind"]](case)
+            "fault": run_fault, "edge": run_edge}[case["kind"]](case)
